@@ -613,6 +613,29 @@ def c15_extra(tier, seed, ctx):
         evals += 1
         distinct.add("refused-go: " + " / ".join(script))
         violations += robust(refused)
+    # lines whose length sits exactly on, just below and just above a power of two (buffer and chunk boundaries), each followed
+    # by a command that must still be obeyed: the position is set after the long line and read back through a depth-1 search
+    sizes = [n + d for k in (6, 8, 10, 12, 13, 16, 20) for n in (1 << k,) for d in (-1, 0, 1)] + ([1 << 21, (1 << 21) + 1, 3 << 20] if tier != "quick" else [])
+    for size in sizes:
+        def boundary(scale, size=size):
+            v = []
+            eng = Engine(E)
+            for filler in (b"x", b"position startpos moves e2e4 "):
+                body = (filler * (size // len(filler) + 1))[: size - 1]      # `size` bytes with the newline
+                eng.send_raw(body + b"\n")
+                idx = len(eng.lines())
+                eng.send("isready")
+                if eng.wait_for(lambda l: l == "readyok", 5.0 * scale, idx) is None:
+                    v.append(viol("C15", "command-after-long-line-lost", f"a line of exactly {size} bytes (filler {filler[:8]!r}), then isready: no readyok; alive={eng.p.poll() is None}"))
+                    break
+            eng.send("quit")
+            rc, dt = eng.close(3.0 * scale)
+            if rc != 0:
+                v.append(viol("C15", "quit-not-honoured", f"after lines of exactly {size} bytes: exit {rc} after {dt:.1f}s"))
+            return v
+        evals += 1
+        distinct.add(f"boundary-length line {size}")
+        violations += robust(boundary)
     # end of input while an unbounded search is running: the engine must still terminate promptly
     for script in (["position startpos", "go infinite"], ["go"], ["position startpos moves e2e4", "go ponder"], ["go depth 200"], ["go infinite", "isready"]):
         def eof_in_search(scale, script=script):
